@@ -1,27 +1,46 @@
 ---------------------------- MODULE ItpRoundTripTrace ----------------------------
 (* I->S for C11: records of real gen_params runs are validated in batches.  One record =                                   *)
 (*   written : the output file exists after gen_params returned                                                            *)
-(*   built   : projection of the molecule held in memory right before the writer was called (token space)                  *)
+(*   built   : projection of the molecule held in memory right before the writer was called (token space, sections as in   *)
+(*             memory)                                                                                                     *)
 (*   lines   : the text that was written, split into abstract lines [k, s, t] (no interpretation of the tokens)            *)
 (*   read    : projection of the molecule Topology.from_gmx_topfile returns for the file, read2: MetaMolecule.from_itp     *)
 (*   req, missing : requested residue graph and the missing-link warnings; rg, rg2: residue graphs of the two readers      *)
 (* Stages (one step each, so that the number of matched steps names the failing clause):                                   *)
 (*   1 written  2 Read(lines) ok and = built  3 read = Read(lines)  4 read2 = read  5 residue graph (when nothing missing) *)
+(* Findings recorded as known are classified exactly: the observation must equal what Write/Read of the specification give *)
+(* for that molecule (mass read as charge; residue edge lost because no bond or constraint carries it).                    *)
 EXTENDS ItpRoundTrip, Json, IOUtils
 VARIABLES tid, l
 Doc == JsonDeserialize(IOEnv.TRACE_FILE)
 Recs == Doc.records
-ASSUME TLCSet(1, {}) /\ TLCSet(2, [t \in 1..Len(Recs) |-> 0])
+KnownMassOnly == Doc.known_massonly
+KnownUnbacked == Doc.known_unbacked
+ASSUME TLCSet(1, {}) /\ TLCSet(2, [t \in 1..Len(Recs) |-> 0]) /\ TLCSet(3, {})
 Rec == Recs[tid]
 NStages == 5
 GraphOf(g) == [nodes |-> ToSet(g.nodes), edges |-> {ToSet(e) : e \in ToSet(g.edges)}]
+\* the molecule in memory, in the sections a file has
+Built == [Rec.built EXCEPT !.inter = [i \in DOMAIN Rec.built.inter |-> [Rec.built.inter[i] EXCEPT !.sec = FileSec(@)]]]
 FoldOfLines == Read(Rec.lines)
-Stage(k) == CASE k = 1 -> Rec.written
-              [] k = 2 -> FoldOfLines.ok /\ Same(FoldOfLines, Rec.built)
-              [] k = 3 -> Same(Rec.read, FoldOfLines)
-              [] k = 4 -> Same(Rec.read2, Rec.read)
-              [] OTHER -> (Len(Rec.missing) = 0 => /\ GraphOf(Rec.rg) = GraphOf(Rec.req) /\ GraphOf(Rec.rg2) = GraphOf(Rec.req)
-                                                    /\ ReadResGraph(FoldOfLines) = GraphOf(Rec.req))
+\* known finding "mass-without-charge": the columns of such an atom shift by one
+MassOnly(a) == a.charge = "" /\ a.mass # ""
+Shifted(p) == [p EXCEPT !.atoms = [i \in DOMAIN p.atoms |-> IF MassOnly(p.atoms[i]) THEN [p.atoms[i] EXCEPT !.charge = p.atoms[i].mass, !.mass = ""]
+                                                                                   ELSE p.atoms[i]]]
+HasMassOnly(p) == \E i \in DOMAIN p.atoms : MassOnly(p.atoms[i])
+Note(code) == TLCSet(3, TLCGet(3) \cup {<<tid, code>>})
+Stage(k) ==
+    CASE k = 1 -> Rec.written
+      [] k = 2 -> /\ FoldOfLines.ok
+                  /\ \/ Same(FoldOfLines, Built)
+                     \/ (KnownMassOnly /\ HasMassOnly(Built) /\ Same(FoldOfLines, Shifted(Built)) /\ Note("mass-without-charge"))
+      [] k = 3 -> Same(Rec.read, FoldOfLines)
+      [] k = 4 -> Same(Rec.read2, Rec.read)
+      [] OTHER -> (Len(Rec.missing) = 0 =>
+                      /\ GraphOf(Rec.rg) = ReadResGraph(FoldOfLines) /\ GraphOf(Rec.rg2) = GraphOf(Rec.rg)
+                      /\ \/ GraphOf(Rec.rg) = GraphOf(Rec.req)
+                         \/ ( /\ KnownUnbacked /\ GraphOf(Rec.rg).nodes = GraphOf(Rec.req).nodes
+                              /\ GraphOf(Rec.rg).edges \subseteq GraphOf(Rec.req).edges /\ Note("residue-edge-without-bond")))
 Frozen == /\ mol = 0 /\ pc = "trace" /\ out = <<>> /\ secs = {} /\ cur = "" /\ groups = <<>> /\ pend = <<>> /\ gopen = NoGuard
           /\ late = FALSE /\ rd = R0 /\ ri = 1
 TInit == Frozen /\ tid \in 1..Len(Recs) /\ l = 1
@@ -29,6 +48,7 @@ TNext == /\ l <= NStages /\ Stage(l) /\ l' = l + 1 /\ tid' = tid /\ UNCHANGED va
 TSpec == TInit /\ [][TNext]_<<vars, tid, l>>
 Mark == (l = NStages + 1) => TLCSet(1, TLCGet(1) \cup {tid})
 Prog == TLCSet(2, [TLCGet(2) EXCEPT ![tid] = IF @ < l - 1 THEN l - 1 ELSE @])
-Accepted == IF TLCGet(1) = 1..Len(Recs) THEN TRUE
-            ELSE (PrintT(<<"REJECTED", ToJson(SetToSeq({<<t, TLCGet(2)[t]>> : t \in (1..Len(Recs)) \ TLCGet(1)}))>>) /\ FALSE)
+Accepted == /\ PrintT(<<"KNOWN", ToJson(SetToSeq(TLCGet(3)))>>)
+            /\ IF TLCGet(1) = 1..Len(Recs) THEN TRUE
+               ELSE (PrintT(<<"REJECTED", ToJson(SetToSeq({<<t, TLCGet(2)[t]>> : t \in (1..Len(Recs)) \ TLCGet(1)}))>>) /\ FALSE)
 =============================================================================
